@@ -745,17 +745,27 @@ class CodeGen {
   /// current sizes of the instructions.
   void layoutProgram() {
     int byteOffset = 0;
-    for (auto &directive : program) {
-      if (directive->getToken() == Token::DATA) {
-        // Data must be on 4-byte boundaries.
+    for (size_t i = 0; i < program.size(); i++) {
+      auto &directive = program[i];
+      bool isLabel = directive->getToken() == Token::IDENTIFIER ||
+                     directive->getToken() == Token::FUNC ||
+                     directive->getToken() == Token::PROC;
+      // Data must be on 4-byte boundaries. A label directly before a data
+      // directive names that data word, so it is aligned as well.
+      size_t next = i;
+      while (isLabel && next < program.size() &&
+             (program[next]->getToken() == Token::IDENTIFIER ||
+              program[next]->getToken() == Token::FUNC ||
+              program[next]->getToken() == Token::PROC)) {
+        next++;
+      }
+      if (next < program.size() && program[next]->getToken() == Token::DATA) {
         if (byteOffset & 0x3) {
           byteOffset += 4 - (byteOffset & 0x3);
         }
       }
       // Update the label value.
-      if (directive->getToken() == Token::IDENTIFIER ||
-          directive->getToken() == Token::FUNC ||
-          directive->getToken() == Token::PROC) {
+      if (isLabel) {
         dynamic_cast<Label*>(directive.get())->setLabelValue(byteOffset);
       }
       directive->setByteOffset(byteOffset);
@@ -844,11 +854,11 @@ public:
       // Func
       if (directive->getToken() == Token::FUNC) {
         auto funcDirective = dynamic_cast<Func*>(directive.get());
-        debugInfo.push_back(std::make_pair(funcDirective->getLabel(), byteOffset));
+        debugInfo.push_back(std::make_pair(funcDirective->getLabel(), funcDirective->getByteOffset()));
       // Proc
       } else if (directive->getToken() == Token::PROC) {
         auto procDirective = dynamic_cast<Proc*>(directive.get());
-        debugInfo.push_back(std::make_pair(procDirective->getLabel(), byteOffset));
+        debugInfo.push_back(std::make_pair(procDirective->getLabel(), procDirective->getByteOffset()));
       // Padding
       } else if (directive->getToken() == Token::PADDING) {
         for (size_t i=0; i<directive->getSize(); i++) {
